@@ -22,6 +22,6 @@ def run(repo, workdir, maxlen=6):
     r = subprocess.run([os.path.join(workdir, 'target', 'release', 'winnow_check'), str(maxlen)], capture_output=True, text=True, timeout=900)
     out = r.stdout.strip().split('\n')[-1] if r.stdout.strip() else ''
     res = {'ok': r.returncode == 0 and out.startswith('AGREE'), 'bounded': True, 'counts_as_proof': False, 'winnow_version': m.group(1) if m else None,
-           'what': 'A15: 30 composite parsers built from the combinators the grammar uses (literal, take_while, digit1, space0/1, eof, any, opt, alt, tuples, preceded, terminated, delimited, peek, separated 0../1.., repeat_till, take, try_map), real winnow vs the assumed relations, every string of length <= %d over 9 symbols' % maxlen,
+           'what': 'A15: 30 composite parsers built from the combinators the grammar uses (literal, take_while, digit1, space0/1, eof, any, opt, alt, tuples, preceded, terminated, delimited, peek, separated 0../1.., repeat_till, take, try_map), real winnow vs the assumed relations, every string of length <= %d over 9 symbols; plus A13\' (std u64 parse on every string of <= 6 symbols over digits, +, -, a letter, a blank, and boundary values) and dec_text (200 000 numbers print as digits that parse back)' % maxlen,
            'result': out, 'wall_s': round(time.time() - t0, 1)}
     return res
